@@ -3,6 +3,7 @@ package rules
 import (
 	"fmt"
 	"go/token"
+	"go/types"
 	"sort"
 	"strings"
 
@@ -63,10 +64,11 @@ func runC18(p *core.Prog, r *core.Result) {
 	r.Decided = []string{
 		"R18.1 typestate of one evaluation on every path: up-to-date | evaluating·succeeded | evaluating·failed | failed | (no event only on the return taken because a dependency failed); the body runs only between evaluating and the terminal event; succeeded never on an error edge",
 		"R18.2 target events are emitted only by (*runTarget).Evaluate; run-done exactly once, after the runner returned, with the error that Run returns",
+		"R18.5 lineWriter.Write conserves bytes: the unconsumed chunk is cut only at its first newline (c[:nl], c[nl+1:]); the rest becomes the next cursor; per newline exactly one line is delivered - c[:nl] alone only where the buffer is known empty, otherwise the buffer after c[:nl] was appended; without a newline the whole rest is buffered",
 		"R18.4 whenever a lineWriter method hands its buffered partial line to Events.Print it resets the buffer before returning (no byte is delivered twice)",
 		"R18.3 the target's line writer is flushed by a defer registered first thing in (*function).evaluate; Flush and newThread have no other callers",
 	}
-	r.NotDecided = []string{"line reassembly for all chunkings (lineWriter.Write is a small behavioural function)", "interleaving of events of different targets", "exactly-once delivery as observed by a renderer"}
+	r.NotDecided = []string{"the byte count returned by lineWriter.Write (io.Writer contract) and the behaviour of strings.Builder / bytes.IndexByte (trusted)", "interleaving of events of different targets", "exactly-once delivery as observed by a renderer"}
 	m := buildEvalModel(p, r, "R18.0")
 	if m == nil {
 		return
@@ -532,6 +534,345 @@ func runC18(p *core.Prog, r *core.Result) {
 
 	// ---- R18.4 a delivered line leaves the buffer
 	checkLineBufferReset(p, r)
+
+	// ---- R18.5 chunk conservation in lineWriter.Write
+	checkLineReassembly(p, r)
+}
+
+// checkLineReassembly implements R18.5: the structure that makes lineWriter.Write deliver every byte exactly once,
+// in order, whatever the chunking. With c the not yet consumed part of the chunk and nl the position of its first
+// newline: (a) c is only ever cut at nl - c[:nl] is the end of the current line, c[nl+1:] the rest; (b) the rest
+// becomes the next c; (c) when there is a newline exactly one line is delivered per iteration: c[:nl] itself when the
+// buffer is known to be empty, otherwise the buffer after c[:nl] has been appended to it; (d) when there is no
+// newline all of c is appended to the buffer.
+func checkLineReassembly(p *core.Prog, r *core.Result) {
+	w := need(p, r, "R18.5", "", "lineWriter", "Write")
+	if w == nil || len(w.Params) < 2 {
+		return
+	}
+	chunk := w.Params[1]
+	var cur *ssa.Phi
+	core.Instrs(w, func(in ssa.Instruction) {
+		if ph, ok := in.(*ssa.Phi); ok && types.Identical(ph.Type(), chunk.Type()) {
+			for _, e := range ph.Edges {
+				if e == ssa.Value(chunk) {
+					cur = ph
+				}
+			}
+		}
+	})
+	if cur == nil {
+		r.Unk("R18.5", "dawn.(*lineWriter).Write#cursor", p.Pos(w.Pos()), "the loop over the unconsumed part of the chunk is not recognised")
+		return
+	}
+	var nl *ssa.Call
+	for _, c := range core.Calls(w) {
+		if call, ok := c.(*ssa.Call); ok && (core.IsCallTo(c, "bytes", "IndexByte") || core.IsCallTo(c, "bytes", "IndexRune")) && call.Call.Args[0] == ssa.Value(cur) {
+			if k, ok := core.ConstInt(call.Call.Args[1]); ok && k == 10 {
+				nl = call
+			}
+		}
+	}
+	if nl == nil {
+		r.Unk("R18.5", "dawn.(*lineWriter).Write#newline", p.Pos(w.Pos()), "the search for the first newline of the unconsumed part is not recognised")
+		return
+	}
+	isNlPlus := func(v ssa.Value, k int64) bool {
+		for {
+			if v == ssa.Value(nl) {
+				return k == 0
+			}
+			b, ok := v.(*ssa.BinOp)
+			if !ok || b.Op != token.ADD {
+				return false
+			}
+			if c, ok := core.ConstInt(b.Y); ok {
+				v, k = b.X, k-c
+				continue
+			}
+			if c, ok := core.ConstInt(b.X); ok {
+				v, k = b.Y, k-c
+				continue
+			}
+			return false
+		}
+	}
+	isHead := func(v ssa.Value) bool {
+		sl, ok := v.(*ssa.Slice)
+		return ok && sl.X == ssa.Value(cur) && sl.Low == nil && sl.High != nil && isNlPlus(sl.High, 0)
+	}
+	isTail := func(v ssa.Value) bool {
+		sl, ok := v.(*ssa.Slice)
+		return ok && sl.X == ssa.Value(cur) && sl.High == nil && sl.Low != nil && isNlPlus(sl.Low, 1)
+	}
+	// (a) cuts
+	nCuts := 0
+	core.Instrs(w, func(in ssa.Instruction) {
+		sl, ok := in.(*ssa.Slice)
+		if !ok || sl.X != ssa.Value(cur) {
+			return
+		}
+		nCuts++
+		r.Check(isHead(sl) || isTail(sl), "R18.5", fmt.Sprintf("dawn.(*lineWriter).Write#cut-%d", nCuts), p.InstrPos(sl), "the chunk is cut at its first newline (c[:nl] / c[nl+1:])", "the unconsumed part of a chunk is cut somewhere other than at its first newline: bytes are lost, duplicated or the newline is delivered as part of a line")
+	})
+	r.Floor("R18.5", nCuts, 2, "cuts of the chunk")
+	// (b) the rest becomes the next cursor (or nil: nothing left)
+	for i, e := range cur.Edges {
+		if e == ssa.Value(chunk) || core.IsNilConst(e) {
+			continue
+		}
+		r.Check(isTail(e), "R18.5", fmt.Sprintf("dawn.(*lineWriter).Write#advance-%d", i), p.InstrPos(cur), "the next iteration continues with c[nl+1:]", "the loop does not continue with exactly the bytes after the newline")
+	}
+	// (c) deliveries. A delivery of the line end h (= c[:nl]) in function f is one of
+	//   direct   - Print(string(h)) where the buffer is known to be empty,
+	//   buffered - Print(buffer) (itself, or through a helper that always prints the buffer) after h was appended,
+	//   complete - a call of a lineWriter helper with h as argument that itself delivers its parameter exactly once
+	//              on every path (checked recursively).
+	isLineCall := func(in ssa.Instruction, name string) (*ssa.Call, bool) {
+		c, ok := in.(*ssa.Call)
+		if !ok || !core.IsMethod(c, "strings", "Builder", name) || len(c.Call.Args) == 0 || !core.IsField(c.Call.Args[0], pkgRoot, "lineWriter", "line") {
+			return nil, false
+		}
+		return c, true
+	}
+	isLW := func(f *ssa.Function) bool {
+		return f != nil && f.Blocks != nil && f.Signature.Recv() != nil && strings.Contains(f.Signature.Recv().Type().String(), "lineWriter") && f.Pkg == w.Pkg
+	}
+	printsBuffer := func(in ssa.Instruction) bool {
+		c, ok := in.(*ssa.Call)
+		if !ok || !isInvoke(c, "Events", "Print") {
+			return false
+		}
+		return core.DependsOn(c.Call.Args[len(c.Call.Args)-1], core.SliceOpts{}, func(v ssa.Value) bool {
+			in, ok := v.(ssa.Instruction)
+			if !ok {
+				return false
+			}
+			_, is := isLineCall(in, "String")
+			return is
+		})
+	}
+	// emitsBuffer: helper that prints the buffer on every path
+	emitsBuffer := func(f *ssa.Function) bool {
+		if !isLW(f) {
+			return false
+		}
+		any := false
+		core.Instrs(f, func(in ssa.Instruction) {
+			if printsBuffer(in) {
+				any = true
+			}
+		})
+		if !any {
+			return false
+		}
+		for _, ret := range core.ReturnsOf(f) {
+			if core.BlockReachesAvoiding(f.Blocks[0], ret, printsBuffer) {
+				return false
+			}
+		}
+		return true
+	}
+	bufferEmptyAt := func(at ssa.Instruction) bool {
+		return p.FactsAt(at).Find(func(c ssa.Value, v bool) bool {
+			b, ok := c.(*ssa.BinOp)
+			if !ok {
+				return false
+			}
+			lenCall := func(x ssa.Value) bool {
+				in, ok := x.(ssa.Instruction)
+				if !ok {
+					return false
+				}
+				_, is := isLineCall(in, "Len")
+				return is
+			}
+			zero := func(x ssa.Value) bool { k, ok := core.ConstInt(x); return ok && k == 0 }
+			if !(lenCall(b.X) && zero(b.Y) || lenCall(b.Y) && zero(b.X)) {
+				return false
+			}
+			return b.Op == token.EQL && v || b.Op == token.NEQ && !v || b.Op == token.GTR && !v && lenCall(b.X) || b.Op == token.LEQ && v && lenCall(b.X)
+		})
+	}
+	type delivery struct {
+		at   ssa.Instruction
+		kind string
+	}
+	var deliveriesIn func(f *ssa.Function, head func(ssa.Value) bool, depth int) ([]delivery, []string)
+	deliveriesIn = func(f *ssa.Function, head func(ssa.Value) bool, depth int) ([]delivery, []string) {
+		var ds []delivery
+		var problems []string
+		appended := func(before ssa.Instruction) bool {
+			ok := false
+			core.Instrs(f, func(in ssa.Instruction) {
+				if c, is := isLineCall(in, "Write"); is && len(c.Call.Args) > 1 && head(c.Call.Args[1]) && core.Dominates(c, before) {
+					ok = true
+				}
+				if c, is := isLineCall(in, "WriteString"); is && len(c.Call.Args) > 1 && core.DependsOn(c.Call.Args[1], core.SliceOpts{}, head) && core.Dominates(c, before) {
+					ok = true
+				}
+			})
+			return ok
+		}
+		for _, c := range core.Calls(f) {
+			call, ok := c.(*ssa.Call)
+			if !ok {
+				continue
+			}
+			pos := p.InstrPos(call)
+			switch {
+			case isInvoke(c, "Events", "Print"):
+				line := call.Call.Args[len(call.Call.Args)-1]
+				switch {
+				case printsBuffer(call):
+					ds = append(ds, delivery{call, "buffered"})
+					if !appended(call) {
+						problems = append(problems, pos+": the buffer is delivered without the end of the line (c[:nl]) having been appended first")
+					}
+				case core.DependsOn(line, core.SliceOpts{}, head):
+					ds = append(ds, delivery{call, "direct"})
+					if !bufferEmptyAt(call) {
+						problems = append(problems, pos+": c[:nl] is delivered without the buffered beginning of the line (the buffer is not known to be empty here): the start of a line written in an earlier chunk is lost or delivered late")
+					}
+				default:
+					ds = append(ds, delivery{call, "other"})
+					problems = append(problems, pos+": a line is delivered that is neither c[:nl] nor the buffer")
+				}
+			case emitsBuffer(core.Callee(c)):
+				ds = append(ds, delivery{call, "buffered"})
+				if !appended(call) {
+					problems = append(problems, pos+": the buffer is delivered without the end of the line (c[:nl]) having been appended first")
+				}
+			case isLW(core.Callee(c)) && depth < 2:
+				h := core.Callee(c)
+				for ai, a := range call.Call.Args {
+					if ai == 0 || !head(a) || ai >= len(h.Params) {
+						continue
+					}
+					prm := h.Params[ai]
+					sub, prob := deliveriesIn(h, func(v ssa.Value) bool { return v == ssa.Value(prm) }, depth+1)
+					problems = append(problems, prob...)
+					isSub := func(in ssa.Instruction) bool {
+						for _, d := range sub {
+							if d.at == in {
+								return true
+							}
+						}
+						return false
+					}
+					for _, ret := range core.ReturnsOf(h) {
+						if core.BlockReachesAvoiding(h.Blocks[0], ret, isSub) {
+							problems = append(problems, p.InstrPos(ret)+": "+fname(h)+" can return without having delivered the line")
+						}
+					}
+					for x, da := range sub {
+						for y, db := range sub {
+							if x != y && core.InstrReaches(da.at, db.at) {
+								problems = append(problems, p.InstrPos(db.at)+": "+fname(h)+" can deliver twice")
+							}
+						}
+					}
+					ds = append(ds, delivery{call, "complete"})
+				}
+			}
+		}
+		return ds, problems
+	}
+	dels, problems := deliveriesIn(w, isHead, 0)
+	r.Floor("R18.5", len(dels), 1, "line deliveries in Write")
+	sort.Strings(problems)
+	for i, d := range dels {
+		r.OK("R18.5", fmt.Sprintf("dawn.(*lineWriter).Write#delivery-%d:%s", i+1, d.kind), p.InstrPos(d.at), "a delivery of the line that ends at the newline")
+	}
+	for i, pr := range problems {
+		r.Bad("R18.5", fmt.Sprintf("dawn.(*lineWriter).Write#delivery-problem-%d", i+1), strings.SplitN(pr, ": ", 2)[0], "%s", strings.SplitN(pr, ": ", 2)[1])
+	}
+	var prints []ssa.Instruction
+	for _, d := range dels {
+		prints = append(prints, d.at)
+	}
+	// exactly one delivery per newline: from the found edge every path to the next iteration passes a delivery, and no delivery reaches another one without going round the loop
+	isPrint := func(in ssa.Instruction) bool {
+		for _, pr := range prints {
+			if in == pr {
+				return true
+			}
+		}
+		return false
+	}
+	for _, ref := range *nl.Referrers() {
+		cmp, ok := ref.(*ssa.BinOp)
+		if !ok {
+			continue
+		}
+		for _, r2 := range *cmp.Referrers() {
+			iff, ok := r2.(*ssa.If)
+			if !ok {
+				continue
+			}
+			k, isConst := core.ConstInt(cmp.Y)
+			if !isConst {
+				continue
+			}
+			// which successor is "found"?
+			found := -1
+			switch {
+			case cmp.Op == token.EQL && k == -1, cmp.Op == token.LSS && k == 0:
+				found = 1
+			case cmp.Op == token.NEQ && k == -1, cmp.Op == token.GEQ && k == 0, cmp.Op == token.GTR && k == -1:
+				found = 0
+			}
+			if found < 0 {
+				continue
+			}
+			hdr := cur.Block()
+			skipped := false
+			for _, q := range hdr.Preds {
+				if !hdr.Dominates(q) {
+					continue // loop entry
+				}
+				term := q.Instrs[len(q.Instrs)-1]
+				if core.BlockReachesAvoiding(iff.Block().Succs[found], term, isPrint) {
+					skipped = true
+				}
+			}
+			r.Check(!skipped, "R18.5", "dawn.(*lineWriter).Write#one-line-per-newline", p.InstrPos(iff), "when a newline is found every path to the next iteration delivers a line", "a newline can be consumed without a line being delivered")
+			// (d) no newline: everything is buffered
+			nf := iff.Block().Succs[1-found]
+			isWriteAll := func(in ssa.Instruction) bool {
+				c, is := isLineCall(in, "Write")
+				return is && len(c.Call.Args) > 1 && c.Call.Args[1] == ssa.Value(cur)
+			}
+			buffersAll := true
+			reached := false
+			var exits []ssa.Instruction
+			for _, ret := range core.ReturnsOf(w) {
+				exits = append(exits, ret)
+			}
+			for _, q := range hdr.Preds {
+				if hdr.Dominates(q) {
+					exits = append(exits, q.Instrs[len(q.Instrs)-1])
+				}
+			}
+			for _, ex := range exits {
+				if core.BlockReachesAvoiding(nf, ex, func(ssa.Instruction) bool { return false }) {
+					reached = true
+					if core.BlockReachesAvoiding(nf, ex, isWriteAll) {
+						buffersAll = false
+					}
+				}
+			}
+			buffersAll = buffersAll && reached
+			r.Check(buffersAll, "R18.5", "dawn.(*lineWriter).Write#buffers-remainder", p.InstrPos(iff), "without a newline the whole unconsumed part is appended to the buffer", "without a newline the unconsumed part of the chunk is not (entirely) appended to the buffer: the beginning of a line split across writes is lost")
+		}
+	}
+	for i, a := range prints {
+		for j, b := range prints {
+			if i != j && core.ReachesAvoiding(a, b, func(in ssa.Instruction) bool { return in.Block() == cur.Block() }) {
+				r.Bad("R18.5", fmt.Sprintf("dawn.(*lineWriter).Write#double-delivery-%d-%d", i+1, j+1), p.InstrPos(b), "two deliveries in one iteration: a line is delivered twice")
+			}
+		}
+	}
 }
 
 // checkLineBufferReset implements R18.4: in the methods of lineWriter, whenever the buffered partial line is
